@@ -67,7 +67,8 @@ func c11Check(c timed.Cfg) func(o *obs.Obs) string {
 		if p := o.AnyPanic(); p != "" {
 			return tag + "/panic|" + p
 		}
-		if o.Horizon {
+		partial := o.Horizon && !c.Drain // cut at the step horizon outside a liveness scenario: only the prefix-closed clauses apply
+		if o.Horizon && !partial {
 			return fmt.Sprintf("%s/cancel-livelock|the consumer keeps receiving after the cancel and the generator keeps delivering (%d values so far): on this path the generator never consults the context, so it does not stop after cancel", tag, o.N("got"))
 		}
 		got := o.Strs("got")
@@ -78,10 +79,10 @@ func c11Check(c timed.Cfg) func(o *obs.Obs) string {
 			return fmt.Sprintf("%s/errors|errors %v, want a prefix of %v", tag, errs, wantErr)
 		}
 		cancelled := o.Has("cancel")
-		if !cancelled && stopAt < 0 {
+		if !cancelled && stopAt < 0 && !partial {
 			return fmt.Sprintf("%s/stuck|the consumer could not finish its script of %d receives (got %v); library: %v", tag, len(c.ConsGaps), got, o.LibBlocked())
 		}
-		if c.CancelAt < 0 && stopAt < 0 && !c.Drain && len(got) != len(c.ConsGaps) {
+		if c.CancelAt < 0 && stopAt < 0 && !c.Drain && !partial && len(got) != len(c.ConsGaps) {
 			return fmt.Sprintf("%s/stuck|consumer script has %d receives, got %v", tag, len(c.ConsGaps), got)
 		}
 		if c.Kind == "emit" && o.Sim {
@@ -118,7 +119,7 @@ func c11Check(c timed.Cfg) func(o *obs.Obs) string {
 				prevI, prevT = i, e.Time
 			}
 		}
-		if o.Sim && (cancelled || stopAt >= 0) {
+		if o.Sim && (cancelled || stopAt >= 0) && !partial {
 			if lb := o.LibBlocked(); len(lb) > 0 {
 				return fmt.Sprintf("%s/cancel-leak|generator still running after cancel: %v", tag, lb)
 			}
@@ -151,7 +152,8 @@ func gapScripts(alphabet []int, maxLen int) [][]int {
 func c11Scenarios(tier string) []e1lib.Scenario {
 	var out []e1lib.Scenario
 	add := func(c timed.Cfg) {
-		out = append(out, e1lib.Scenario{Name: timedName(c), Root: func() { timed.Scenario(c) }, Check: c11Check(c), Bound: -1, Sample: c, Live: c.Drain,
+		chk := c11Check(c)
+		out = append(out, e1lib.Scenario{Name: timedName(c), Root: func() { timed.Scenario(c) }, Check: chk, OnHorizon: chk, Bound: -1, Sample: c, Live: c.Drain,
 			Nontrivial: func(outcomes, execs, states int) bool { return len(c.ConsGaps) >= 2 }})
 	}
 	maxLen := 3
